@@ -6,6 +6,7 @@
 #include <booster/aio/reactor.h>
 #include <booster/aio/deadline_timer.h>
 #include <booster/aio/stream_socket.h>
+#include <booster/aio/buffer.h>
 #include <booster/aio/aio_category.h>
 #include <booster/posix_time.h>
 #include <booster/system_error.h>
@@ -304,6 +305,85 @@ static void overtake_scenario(rng &r, int reactor, int iterations)
 	O().count("overtake_scenarios");
 }
 
+// The peer writes its last bytes and closes: the descriptor is readable (and hung up). The wait for readability
+// happened - it must be delivered as success and the bytes must be readable, on every back-end alike.
+static void hangup_scenario(rng &r, int reactor)
+{
+	for (int variant = 0; variant < 4; variant++) {
+		aio::io_service srv(reactor);
+		int sp[2]; if (socketpair(AF_UNIX, SOCK_STREAM, 0, sp)) { perror("socketpair"); exit(3); }
+		aio::stream_socket s(srv); s.assign(sp[0]);
+		bool before = variant & 1, some = variant & 2;
+		int n = r.range(1, 2000);
+		std::string data(n, 'd');
+		if (before) { if (write(sp[1], data.data(), data.size()) != (ssize_t)data.size()) {} close(sp[1]); }
+		struct result { int runs, err; size_t got; std::string cat; } res = { 0, 0, 0, "" };
+		std::vector<char> buf(4096);
+		struct rd { result *r; aio::stream_socket *s; std::vector<char> *buf; aio::io_service *srv;
+			void operator()(booster::system::error_code const &e) const { r->runs++; r->err = e.value(); r->cat = e ? e.category().name() : ""; if (!e) { booster::system::error_code e2; r->got = s->read_some(aio::buffer(*buf), e2); } srv->stop(); } };
+		struct rs { result *r; aio::io_service *srv; void operator()(booster::system::error_code const &e, size_t k) const { r->runs++; r->err = e.value(); r->cat = e ? e.category().name() : ""; r->got = k; srv->stop(); } };
+		if (some) { rs h = { &res, &srv }; s.async_read_some(aio::buffer(buf), h); } else { rd h = { &res, &s, &buf, &srv }; s.on_readable(h); }
+		if (!before) {
+			struct later { int fd; std::string const *d; void operator()() const { if (write(fd, d->data(), d->size()) != (ssize_t)d->size()) {} close(fd); } };
+			later l = { sp[1], &data }; srv.post(l);
+		}
+		struct stop2 { aio::io_service *s; void operator()() const { s->stop(); } };
+		struct stopper { aio::io_service *s; void operator()(booster::system::error_code const &) const { stop2 h = { s }; s->post(h); } };
+		stopper st = { &srv }; srv.set_timer_event(ptime::now() + ptime::from_number(2.0), st);
+		srv.run();
+		O().count("handlers_registered"); O().count("hangup_cases");
+		std::string rp = "{\"scenario\":\"hangup\",\"reactor\":" + std::to_string(reactor) + ",\"peer_closed_before_the_wait\":" + (before ? "true" : "false") + ",\"operation\":\"" + (some ? "async_read_some" : "on_readable") + "\",\"bytes\":" + std::to_string(n) + "}";
+		if (res.runs != 1) O().viol(res.runs ? "aio:handler-ran-more-than-once:io" : "aio:handler-never-ran:io", "peer wrote and closed", rp);
+		else if (res.err) O().viol("aio:readable-descriptor-delivered-as-error", "the peer wrote " + std::to_string(n) + " bytes and closed; the handler got error " + std::to_string(res.err) + " (" + res.cat + ") instead of the data", rp);
+		else if (res.got == 0 || res.got > (size_t)n) O().viol("aio:readable-descriptor-had-no-data", "read " + std::to_string(res.got) + " of " + std::to_string(n), rp);
+	}
+	O().count("hangup_scenarios");
+}
+
+// A deadline_timer that is cancelled and armed again (the watchdog idiom): the completion of the cancelled wait is still queued
+// when the new wait is armed; when it runs it must not make the NEW wait un-cancellable.
+static void rearm_scenario(rng &r, int reactor)
+{
+	aio::io_service srv(reactor);
+	logbook lb;
+	aio::deadline_timer t(srv);
+	int chain = r.range(1, 4);                 // how many cancel + re-arm rounds before the final cancel
+	std::vector<long> ids;
+	struct stop2 { aio::io_service *s; void operator()() const { s->stop(); } };
+	struct stop1 { aio::io_service *s; void operator()() const { stop2 h = { s }; s->post(h); } };
+	struct stopper { aio::io_service *s; void operator()(booster::system::error_code const &) const { stop1 h = { s }; s->post(h); } };
+	struct final_cancel { aio::deadline_timer *t; logbook *lb; long id; void operator()() const { lb->mark_cancel(id); t->cancel(); } };
+	struct arm { aio::io_service *srv; aio::deadline_timer *t; logbook *lb; std::vector<long> *ids; int chain;
+		void operator()() const {
+			for (int i = 0; i < chain; i++) {
+				t->expires_from_now(ptime::from_number(30));
+				long id = lb->add(K_TIMER_CANCEL, 0); ids->push_back(id);
+				ev_handler h = { lb, id, 0 }; t->async_wait(h);
+				lb->mark_cancel(id); t->cancel();
+			}
+			t->expires_from_now(ptime::from_number(0.25));
+			long id = lb->add(K_TIMER_CANCEL, 0); ids->push_back(id);
+			ev_handler h = { lb, id, 0 }; t->async_wait(h);
+			// the cancel of the last wait goes behind the queued completions of the cancelled ones
+			final_cancel fc = { t, lb, id }; srv->post(fc);
+		} };
+	arm a = { &srv, &t, &lb, &ids, chain };
+	srv.post(a);
+	stopper st = { &srv };
+	srv.set_timer_event(ptime::now() + ptime::from_number(0.6), st);
+	srv.run();
+	std::vector<int> count(lb.regs.size(), 0); std::vector<run const *> first(lb.regs.size(), (run const *)0);
+	for (auto const &x : lb.runs) { count[x.id]++; if (!first[x.id]) first[x.id] = &x; }
+	std::string rp = "{\"scenario\":\"rearm\",\"reactor\":" + std::to_string(reactor) + ",\"cancel_and_rearm_rounds\":" + std::to_string(chain) + "}";
+	for (size_t k = 0; k < ids.size(); k++) {
+		long id = ids[k];
+		O().count("handlers_registered");
+		if (count[id] != 1) { O().viol(count[id] ? "aio:handler-ran-more-than-once:object" : "aio:handler-never-ran:object", "re-armed deadline_timer, wait " + std::to_string(k), rp); continue; }
+		if (first[id]->err != aio::aio_error::canceled) O().viol("aio:cancelled-timer-delivered-success", "deadline_timer cancelled " + std::to_string(k + 1 == ids.size() ? 1 : 0) + "... wait " + std::to_string(k) + " of " + std::to_string(ids.size()) + " (armed after a cancel) was cancelled before its deadline but its handler got error " + std::to_string(first[id]->err), rp);
+	}
+	O().count("rearm_scenarios");
+}
+
 // Timers with nearly equal deadlines on an otherwise quiet loop: the loop must not go to sleep past the second one.
 // Bounded progress instead of "eventually": both handlers are awaited for 10 s; if they are still missing, one unrelated
 // post() is made - when that alone releases them the loop had computed a sleep that ignored a due timer.
@@ -447,6 +527,8 @@ int main(int argc, char **argv)
 	for (long long i = 0; i < rounds && O().viol_count < 10; i++) {
 		for (int ri = 0; ri < 3; ri++) {
 			if (mode == "all" || mode == "loop") loop_scenario(r, reactors[ri], r.range(1, (int)a.num("producers", 6)), actions, "");
+			if (mode == "all" || mode == "hangup") hangup_scenario(r, reactors[ri]);
+			if (mode == "all" || mode == "rearm") for (int k = 0; k < 3; k++) rearm_scenario(r, reactors[ri]);
 			if (mode == "all" || mode == "near") near_deadline_scenario(r, reactors[ri], (int)a.num("near", 40));
 			if (mode == "all" || mode == "overtake") overtake_scenario(r, reactors[ri], (int)a.num("overtake", 150));
 			if (mode == "all" || mode == "objects") for (int k = 0; k < 5; k++) object_scenario(r, reactors[ri]);
